@@ -74,9 +74,9 @@ def run(ctx):
     f = ctx.fn("darling_core::error::Error::add_sibling_alts_for_unknown_field")
     if f:
         for blk, t in ctx.find_calls(f, r"ErrorUnknownField::add_alts$"):
-            ctx.requires("C17.G.siblings-only-at-origin", f, blk, "add_alts", [r"is_empty\(self\.locations\)=True", r"discr\(self\.kind\)=UnknownField$"])
+            ctx.requires("C17.G.siblings-only-at-origin", f, blk, "add_alts", [r"^len\(self\.locations\)=0$", r"discr\(self\.kind\)=UnknownField$"])
         for blk, i, st in ctx.find_field_assigns(f, "kind", 1):
-            ctx.requires("C17.G.siblings-only-at-origin", f, blk, "self.kind = Multiple(mapped)", [r"is_empty\(self\.locations\)=True"])
+            ctx.requires("C17.G.siblings-only-at-origin", f, blk, "self.kind = Multiple(mapped)", [r"^len\(self\.locations\)=0$"])
         n = len(ctx.find_calls(f, r"ErrorUnknownField::add_alts$"))
         ctx.ob("C17.G.siblings-shape", f.key, "add_alts call", n == 1, "%d" % n)
     callers = sorted({b.owner_fn or b.key for b in ctx.all_bodies(core) if not scan.is_test_body(b) and not b.derived and ctx.find_calls(b, r"ErrorUnknownField::add_alts$")})
@@ -97,7 +97,7 @@ def run(ctx):
         ctx.anchor_missing("C17.type", "darling_core::error::kind::ErrorKind", "ADT facts missing")
     # who builds ErrorUnknownField with alternatives
     makers = sorted({b.key for b in ctx.all_bodies(core) if not scan.is_test_body(b) and not b.derived and ctx.find_calls(b, r"ErrorUnknownField::with_alts$")})
-    ctx.ob("C17.who.with-alts", K + "ErrorUnknownField::with_alts", "callers", makers == ["darling_core::error::Error::unknown_field_path_with_alts", "darling_core::error::Error::unknown_field_with_alts"], "%s" % makers)
+    ctx.ob("C17.who.with-alts", K + "ErrorUnknownField::with_alts", "callers", bool(makers) and set(makers) <= {"darling_core::error::Error::unknown_field_path_with_alts", "darling_core::error::Error::unknown_field_with_alts"}, "%s" % makers)
     # ---------------------------------------------------------------- candidate lists vs arms
     f = ctx.fn("darling_core::codegen::variant_data::FieldsGen::<'a>::core_loop")
     if f:
@@ -148,7 +148,7 @@ def run(ctx):
         T = tpl.Templates(f)
         for tk in T.all_tokens(("ident",)):
             if tk.text == "add_sibling_alts_for_unknown_field":
-                ctx.requires("C17.G.parent-names-only-when-any", f, tk.blk, "add_sibling_alts template", [r"is_empty\(self\.parent_field_names\)=False"])
+                ctx.requires("C17.G.parent-names-only-when-any", f, tk.blk, "add_sibling_alts template", [("ne", r"^len\(self\.parent_field_names\)$", 0)])
     g = ctx.fn("darling_core::codegen::trait_impl::TraitImpl::<'a>::require_fields")
     if g:
         ok = False
